@@ -147,7 +147,9 @@ func Run(strat Strategy, maxSteps int, main func()) *Result { return run(strat, 
 // final outcome) keeps at least one representative; a run whose every enabled transition is asleep
 // ends with Outcome "pruned".  Properties checked on POR runs must not depend on the relative order
 // of independent steps (the checks in harness/conc use happens-before, not log positions).
-func RunPOR(strat Strategy, maxSteps int, main func()) *Result { return run(strat, maxSteps, true, main) }
+func RunPOR(strat Strategy, maxSteps int, main func()) *Result {
+	return run(strat, maxSteps, true, main)
+}
 
 func run(strat Strategy, maxSteps int, por bool, main func()) *Result {
 	s := &sched{strat: strat, yield: make(chan *g), res: &Result{}, maxSteps: maxSteps, por: por}
@@ -293,7 +295,9 @@ type trans struct {
 	idx  int // select case index of the goroutine that receives
 }
 
-func (t trans) same(u trans) bool { return t.x == u.x && t.r == u.r && t.idx == u.idx && t.kind == u.kind }
+func (t trans) same(u trans) bool {
+	return t.x == u.x && t.r == u.r && t.idx == u.idx && t.kind == u.kind
+}
 
 // object touched by the transition (nil for go)
 func (t trans) object() any {
